@@ -146,6 +146,8 @@ type Rec struct {
 	FollowNil bool     `json:"follow_nil,omitempty"`
 	FollowRan bool     `json:"follow_ran,omitempty"`
 	After    *DiskObs `json:"after,omitempty"`
+	Result   string   `json:"result,omitempty"`  // terminal result AutoTA counted for the refresh under test
+	Attempts int      `json:"attempts,omitempty"`
 	Queries  int      `json:"queries,omitempty"` // DNSKEY queries the scripted root answered during the refresh
 	Panic    string   `json:"panic,omitempty"`
 	RealNano int64    `json:"real_ns,omitempty"`
